@@ -60,6 +60,7 @@ class WorldC16(World):
             'small_coeff': rng.random() < 0.5,
             'via': rng.choice(['thermdat', 'thermdat', 'list', 'dict']),
             'policy_rate': rng.choice([0.0, 0.0, 0.25, 0.5]),
+            'feed_scale': rng.choice([1.0, 1.0, 1.0, 1e-3, 1e-6, 1e3]),
             'policies': sorted(rng.sample(['iter_cap', 'raise', 'early_stop', 'fail_status'], rng.randint(1, 4))),
             'load_fault_rate': rng.choice([0.0, 0.3]),
             'enum_policies': tier == 'thorough' and rng.random() < 0.3,
@@ -128,6 +129,9 @@ class WorldC16(World):
                 covered |= set(d['comp'])
             if covered >= present | set(els) and len(feed) >= 1 and rng.random() < 0.7:
                 break
+        fs = sw.get('feed_scale', 1.0)
+        if fs != 1.0:
+            feed = {k: v * fs for k, v in feed.items()}       # "any non-negative amounts": micromoles to kilomoles
         return species, feed
 
     def _span(self, species, T):
